@@ -8,6 +8,7 @@ from . import net as NET
 from . import xfer as X
 
 M = 65536
+RUNS = {}      # label -> parameters of the run, for re-examining a stalled one
 
 
 class Proxy(threading.Thread):
@@ -280,6 +281,7 @@ def one_run(srv, sb, workdir, direction, remote, content, blk, w, tmo, label, ho
     else:
         got = open(server_file, "rb").read() if os.path.isfile(server_file) else None
     strays = [x for x in os.listdir(rd) if x != base] if direction == "download" else []
+    RUNS[label] = (direction, remote, content, blk, w, tmo, host, local_name, expect_refusal)
     final = {"e": "final", "label": label, "dir": direction, "refused": bool(refused), "expect_refusal": expect_refusal,
              "target_exists": got is not None, "same": got == content, "strays": len(strays),
              "client_reported_error": ("error" in (so + se).lower()), "rc": rc, "timed_out": se == "TIMEOUT",
